@@ -12,7 +12,8 @@
    `pick` is an arbitrary choice function. *)
 From Coq Require Import List Bool String ZArith.
 From Omega Require Import L4Steps.Mangle L4Steps.MangleProofs L4Steps.Stepper
-  L4Steps.StepperProofs L4Steps.Assembly L4Steps.AssemblyProofs.
+  L4Steps.StepperProofs L4Steps.Assembly L4Steps.AssemblyProofs
+  L4Steps.IsolationExact.
 From OmegaGen Require StepsGen.
 From OmegaGP Require Import StepsBridge.
 Import ListNotations.
@@ -152,14 +153,52 @@ Theorem C19_local_view_exact : forall G n mvars,
     forall k, lookup k L = if mem k mvars then spec_local G n k else None.
 Proof. exact to_local_exact. Qed.
 
-(* assembly_isolation: see AssemblyProofs.v.  Component names are distinct,
-   non-empty and free of "_"; no declared visible variable looks like a
-   mangled name "d_..." of a component d of the assembly; G consists of the
-   components' mangled outputs.  Then a component's view contains only
-   variables it declares; its hidden entries are its own outputs; its
-   visible entries are visible outputs of the same name: no value of another
-   component's hidden variable reaches it. *)
+(* assembly_isolation (theories/L4Steps/IsolationExact.v), under the exact
+   naming condition:
+     names_ok ms              every component name is non-empty and does not
+                              start with "_";
+     mangling_unambiguous ms  for components c, d of the assembly, a hidden
+                              identifier k declared by c and a hidden
+                              identifier h declared by d:
+                              fst c ++ k = fst d ++ h  only if  fst c = fst d
+                              and k = h;
+     visible_clean ms         no declared visible variable looks like a
+                              mangled name "d_..." of a component d;
+   G consists of the components' mangled outputs.  Then a component's view
+   contains only variables it declares; its hidden entries are outputs of
+   the component of its name; its visible entries are visible outputs of the
+   same name: no value of another component's hidden variable reaches it.
+   The condition cannot be dropped (C19_underscore_names_can_leak below). *)
 Theorem C19_assembly_isolation : forall ms outs G c,
+  names_ok ms -> mangling_unambiguous ms -> visible_clean ms ->
+  from_outputs ms outs G -> In c ms ->
+  exists L, to_local G (fst c) (m_vars (snd c)) = Ok L /\
+    forall k z, In (k, z) L ->
+      In k (m_vars (snd c)) /\
+      if is_hidden k
+      then exists rg, In rg outs /\ to_global (fst rg) (fst c) = Ok (snd rg) /\
+                      In (k, z) (fst rg)
+      else exists rg, In rg outs /\ In (k, z) (visible_vars (fst rg)).
+Proof. exact assembly_isolation_exact. Qed.
+
+(* sufficient conditions for [names_ok] and [mangling_unambiguous]:
+   1. component names free of "_" ([names_plain]);
+   2. all declared hidden identifiers have one length (any names);
+   3. in particular: all declared hidden identifiers are "_goal" or "_hold",
+      which is what synthesized implementations declare (any names). *)
+Theorem C19_mangling_unambiguous_when :
+  (forall ms, names_plain ms -> names_ok ms /\ mangling_unambiguous ms) /\
+  (forall ms n, hidden_same_length ms n -> mangling_unambiguous ms) /\
+  (forall ms, hidden_goal_hold ms -> mangling_unambiguous ms).
+Proof.
+  split; [|split].
+  - intros ms NP. split; [apply names_plain_names_ok|apply names_plain_unambiguous]; exact NP.
+  - exact same_length_unambiguous.
+  - exact goal_hold_unambiguous.
+Qed.
+
+(* the former statement (names without underscores) *)
+Theorem C19_assembly_isolation_plain_names : forall ms outs G c,
   names_plain ms -> visible_clean ms -> from_outputs ms outs G -> In c ms ->
   exists L, to_local G (fst c) (m_vars (snd c)) = Ok L /\
     forall k z, In (k, z) L ->
@@ -168,7 +207,58 @@ Theorem C19_assembly_isolation : forall ms outs G c,
       then exists rg, In rg outs /\ to_global (fst rg) (fst c) = Ok (snd rg) /\
                       In (k, z) (fst rg)
       else exists rg, In rg outs /\ In (k, z) (visible_vars (fst rg)).
-Proof. exact assembly_isolation. Qed.
+Proof. exact assembly_isolation_plain. Qed.
+
+(* the property's quantifier - assemblies of synthesized implementations,
+   whose hidden identifiers are "_goal" and "_hold": isolation for ANY
+   component names (not empty, not starting with "_"), including names with
+   underscores that are prefixes of one another ("a", "a_b", "cell_1",
+   "cell_10") *)
+Theorem C19_assembly_isolation_synthesized : forall ms outs G c,
+  names_ok ms -> hidden_goal_hold ms -> visible_clean ms ->
+  from_outputs ms outs G -> In c ms ->
+  exists L, to_local G (fst c) (m_vars (snd c)) = Ok L /\
+    forall k z, In (k, z) L ->
+      In k (m_vars (snd c)) /\
+      if is_hidden k
+      then exists rg, In rg outs /\ to_global (fst rg) (fst c) = Ok (snd rg) /\
+                      In (k, z) (fst rg)
+      else exists rg, In rg outs /\ In (k, z) (visible_vars (fst rg)).
+Proof. exact assembly_isolation_synthesized. Qed.
+
+(* observation (outside the property's quantifier): with hidden identifiers
+   of different lengths and names containing "_" the mangling is ambiguous.
+   Component "a_b" has the hidden "_y" (value 7); component "a" declares the
+   hidden "_b_y", never writes it, and copies what it reads there to "u".
+   Both identifiers have the global name "a_b_y": names_ok and visible_clean
+   hold, mangling_unambiguous does not, nothing is signalled, and "a"
+   outputs the hidden value of "a_b". *)
+Example C19_underscore_names_can_leak :
+  names_ok leak_ms /\ visible_clean leak_ms /\ machines_ok leak_ms /\
+  NoDup (map fst leak_ms) /\
+  ~ mangling_unambiguous leak_ms /\
+  (exists a, run omit1 leak_ms 1 = Ok a /\
+             s_state a = Some [("a_b_y", 7%Z); ("u", 7%Z)]) /\
+  to_local [("a_b_y", 7%Z); ("u", 0%Z)] "a" ["_b_y"; "u"]
+  = Ok [("_b_y", 7%Z); ("u", 0%Z)].
+Proof. exact underscore_names_can_leak. Qed.
+
+(* non-vacuity of the synthesized case with such names: two components
+   "cell_1", "cell_10" that declare "_goal" / "_hold" *)
+Example C19_synthesized_names_example :
+  let m := {| m_vars := ["x"; "_goal"; "_hold"]; m_init := Ok [];
+              m_step := fun _ => Ok [] |} in
+  names_ok [("cell_1", m); ("cell_10", m)] /\
+  hidden_goal_hold [("cell_1", m); ("cell_10", m)] /\
+  visible_clean [("cell_1", m); ("cell_10", m)].
+Proof.
+  intros m. split; [|split].
+  - intros nm [<-|[<-|[]]]; simpl; split; (discriminate || reflexivity).
+  - intros c k [<-|[<-|[]]]; simpl; intros [<-|[<-|[<-|[]]]] H;
+      (discriminate || auto).
+  - intros c d [<-|[<-|[]]] [<-|[<-|[]]] k; simpl;
+      intros [<-|[<-|[<-|[]]]] H; (reflexivity || discriminate).
+Qed.
 
 (* every state an assembly records does consist of mangled outputs, with
    pairwise distinct global names *)
@@ -209,7 +299,9 @@ Proof.
 Qed.
 
 (* ... and for a component that is an AutomatonStepper this means that the
-   recorded step satisfies its action: *)
+   recorded step satisfies its action (whatever the local view is: the
+   stepper returns values only after its own checks, see
+   C19_stepper_step_sound, so no hypothesis on the local state is needed): *)
 Theorem C19_recorded_step_satisfies_action :
   forall pick_i pick_s A ms name n a,
   (forall l x, pick_i l = Some x -> In x l) ->
@@ -222,17 +314,16 @@ Theorem C19_recorded_step_satisfies_action :
   exists local r,
     to_local G name (names (a_decls A)) = Ok local /\
     (forall k z, In (k, z) r -> lookup (gname name k) G' = Some z) /\
-    (state_ok (a_decls A) local ->
-       (forall x, In x (a_impl A) -> In (prime x) (names (a_decls A)) -> In x (keys r)) /\
-       forall v, in_dom (a_decls A) v ->
-         (forall s z, lookup s r = Some z -> v (prime s) = z) ->
-         a_action A (override v local) = true).
+    (forall x, In x (a_impl A) -> In (prime x) (names (a_decls A)) -> In x (keys r)) /\
+    (forall v, in_dom (a_decls A) v ->
+       (forall s z, lookup s r = Some z -> v (prime s) = z) ->
+       a_action A (override v local) = true).
 Proof.
   intros pick_i pick_s A ms name n a Pi Ps WF RO UNP MOK IN RUN G G' CO.
   destruct (assembly_step_sound ms n a MOK RUN) as [C _].
   destruct (chain_consecutive _ _ _ _ C CO name _ IN) as [local [r [L [S E]]]].
   exists local, r. split; [exact L|]. split; [exact E|].
-  intros SO. exact (step_ok_sound pick_s Ps A WF RO local r S).
+  exact (step_ok_sound pick_s Ps A WF RO local r S).
 Qed.
 
 (* machines built from steppers, and the Scheduler, are admissible machines *)
@@ -245,7 +336,8 @@ Theorem C19_stepper_machine_ok : forall pick_i pick_s A,
 Proof. intros pick_i pick_s A Pi Ps. exact (stepper_machine_ok pick_i pick_s Pi Ps A). Qed.
 
 (* C19_mangle_refuted (regression, defect F9): with the unrepaired
-   `_omit_prefix` the hypotheses of C19_assembly_isolation hold for the
+   `_omit_prefix` the hypotheses of C19_assembly_isolation_plain_names (hence
+   of C19_assembly_isolation) hold for the
    assembly {ab (hidden _y), a (declares visible b_y)} and "a" nevertheless
    computes its output from ab's hidden value 7; the repaired function gives
    the isolated result. *)
@@ -397,7 +489,8 @@ Qed.
 
 (* assembly_isolation, for the view computed by the translated code *)
 Theorem C19_translated_assembly_isolation : forall ms outs G c,
-  names_plain ms -> visible_clean ms -> from_outputs ms outs G -> In c ms ->
+  names_ok ms -> mangling_unambiguous ms -> visible_clean ms ->
+  from_outputs ms outs G -> In c ms ->
   exists L, StepsGen.Assembly__to_local_state G (fst c) (snd c) = Ok L /\
     forall k z, In (k, z) L ->
       In k (m_vars (snd c)) /\
@@ -406,8 +499,15 @@ Theorem C19_translated_assembly_isolation : forall ms outs G c,
                       In (k, z) (fst rg)
       else exists rg, In rg outs /\ In (k, z) (visible_vars (fst rg)).
 Proof.
-  intros ms outs G c. rewrite to_local_generated_is_model. apply assembly_isolation.
+  intros ms outs G c. rewrite to_local_generated_is_model.
+  apply assembly_isolation_exact.
 Qed.
+
+(* ... and the leak outside the condition, on the translated code *)
+Example C19_translated_underscore_names_can_leak :
+  exists a, gen_run leak_ms 1 = Ok a /\
+            s_state a = Some [("a_b_y", 7%Z); ("u", 7%Z)].
+Proof. eexists. split; vm_compute; reflexivity. Qed.
 
 (* collisions of unmangled names are signalled by the translated code *)
 Theorem C19_translated_collisions_signalled : forall p d,
@@ -458,6 +558,11 @@ Print Assumptions C19_stepper_init_sound.
 Print Assumptions C19_mangle_roundtrip.
 Print Assumptions C19_local_view_exact.
 Print Assumptions C19_assembly_isolation.
+Print Assumptions C19_mangling_unambiguous_when.
+Print Assumptions C19_assembly_isolation_plain_names.
+Print Assumptions C19_assembly_isolation_synthesized.
+Print Assumptions C19_underscore_names_can_leak.
+Print Assumptions C19_synthesized_names_example.
 Print Assumptions C19_recorded_state_from_outputs.
 Print Assumptions C19_collisions_signalled.
 Print Assumptions C19_assembly_step_sound.
@@ -472,6 +577,8 @@ Print Assumptions C19_translated_stepper_init_sound.
 Print Assumptions C19_translated_mangle_roundtrip.
 Print Assumptions C19_translated_local_view_exact.
 Print Assumptions C19_translated_assembly_isolation.
+Print Assumptions C19_translated_underscore_names_can_leak.
+Print Assumptions C19_machines_ok_return_dicts.
 Print Assumptions C19_translated_collisions_signalled.
 Print Assumptions C19_translated_assembly_step_sound.
 Print Assumptions C19_translated_refused_step_changes_nothing.
